@@ -285,6 +285,28 @@ def unit(u) -> Stats:
                                          f"iterated) gives different tables: the checkpoint on disk was modified", history=[list(h) for h in hist + [losses]],
                                          saveload=True, **doc)
                             return st
+                        # a checkpoint is the CONTENT of its directory: a copy of the directory, loaded after training went on and overwrote
+                        # the original place (and from another working directory), still holds the state it was saved in
+                        p2 = Path(scratch) / "archived"
+                        shutil.rmtree(p2, ignore_errors=True)
+                        shutil.copytree(p, p2)
+                        ctx.restore(s2)
+                        ctx.iterate(rm, nxt_losses)
+                        rm.save(p)
+                        cwd = os.getcwd()
+                        try:
+                            os.chdir("/")
+                            arch = GameRegretMinimizer.load(p2)
+                        finally:
+                            os.chdir(cwd)
+                        st.evals += 1
+                        if not (np.array_equal(np.asarray(arch.cumulative_regret), s2[0]) and np.array_equal(np.asarray(arch.cumulative_strategy), s2[1])
+                                and arch.iteration == s2[2]):
+                            st.violation(f"[regret n={n} limit={limit} plus={plus}] a COPY of the checkpoint directory, loaded after the original "
+                                         f"directory was overwritten by a later save, does not hold the state it was saved in",
+                                         history=[list(h) for h in hist + [losses]], saveload=True, **doc)
+                            return st
+                        ctx.restore(s2)
                     k = ctx.key(s2)
                     if k not in seen:
                         seen.add(k)
